@@ -32,6 +32,9 @@ def classify(rec):
     if (rec.get("symptom") == "panic" and "assignment to entry in nil map" in rec.get("got", "")
             and any(d["d"] == "null" and d["k"] in SECTIONS for d in rec.get("devs", []))):
         return "null-section-nil-map-panic"
+    if (rec.get("symptom") == "panic" and "assignment to entry in nil map" in rec.get("got", "")
+            and rec.get("devs") in ([{"k": "@doc", "d": "null"}], [{"k": "@doc", "d": "tilde"}])):
+        return "null-document-nil-map-panic"
     return None
 
 
@@ -121,6 +124,9 @@ def run(ctx):
                 raise vlib.Inconclusive("vacuous: action %s never taken (%s)" % (a, acts))
     vectors = gen["vectors"]
     bases = {v["v"]: v for v in vectors if v["kind"] == "base"}
+    docs = sorted([v for v in vectors if v["kind"] == "doc"], key=lambda v: (v["v"], json.dumps(v["devs"])))
+    if len(docs) < LAST + 8:
+        raise vlib.Inconclusive("too few document-level vectors: %d" % len(docs))
     singles = [v for v in vectors if v["kind"] == "vec"]
     if len(bases) != LAST + 1 or len(singles) < 3000:
         raise vlib.Inconclusive("too few vectors: %d bases, %d deviations" % (len(bases), len(singles)))
@@ -138,7 +144,7 @@ def run(ctx):
                  "clients", "zz_extra", "dns.zz_extra"}
         replayed_singles = [v for v in singles if v["start"] >= 5 or v["devs"][0]["k"] in early
                             or v["devs"][0]["k"].startswith("cl0") or rng.random() < 0.25]
-    allv = sorted(bases.values(), key=lambda v: v["v"]) + replayed_singles
+    allv = sorted(bases.values(), key=lambda v: v["v"]) + docs + replayed_singles
 
     # ---- pairs (thorough): all generated for v >= 5, a seeded sample below
     npairs = 0
@@ -195,7 +201,7 @@ def run(ctx):
         raise vlib.Inconclusive("too many skipped vectors: %d" % stats["skipped"])
 
     def nontrivial(v):
-        return v["kind"] == "vec" and (v["err"] or len(v["oks"]) > 1 or v["start"] != v["v"])
+        return v["kind"] in ("vec", "doc") and (v["err"] or len(v["oks"]) > 1 or v["start"] != v["v"])
 
     samples = [{k: singles[i][k] for k in ("v", "devs", "err", "start")} | {"n_admissible_shapes": len(singles[i]["oks"])}
                for i in (0, len(singles) // 2, len(singles) - 1)]
@@ -206,7 +212,7 @@ def run(ctx):
         "vectors_generated": len(vectors) + (npairs and len(pairs)) + len(tvecs),
         "vectors_replayed": summ["n"],
         "single_deviation_vectors": len(singles), "single_deviation_vectors_replayed": len(replayed_singles),
-        "baseline_vectors": len(bases),
+        "baseline_vectors": len(bases), "document_level_vectors": len(docs),
         "pair_vectors_replayed": npairs, "trace_documents": len(tvecs),
         "migrate_calls_paths": summ["paths"],
         "distinct_nontrivial": sum(1 for v in allv if nontrivial(v)),
